@@ -78,7 +78,11 @@ def _dyn(draw, big):
             # then removed from the Hamiltonian object and the same propagator is used again
             "decouple_after": draw(st.sampled_from([0, 0, 0, 90, -140])),
             # the caller propagates while other energy units are current
-            "prop_units": draw(st.sampled_from([None, None, None, "1/cm", "eV", "THz"]))}
+            "prop_units": draw(st.sampled_from([None, None, None, "1/cm", "eV", "THz"])),
+            # ... or creates the propagator object while other energy units are current
+            "ctor_units": draw(st.sampled_from([None, None, None, "1/cm", "eV"])),
+            # correlation times that are not a whole number of femtoseconds
+            "tau_frac": draw(st.sampled_from([0, 0, 0.5, 0.25, 0.8]))}
 
 
 def strategy(tier):
@@ -163,7 +167,7 @@ def _index(case, ctx):
               rtol=1e-12, scale=max(1e-9, depth * float(numpy.max(gam))), where=where)
 
 
-def _propagate(qr, agg, depth, ta, rho0, route="ctor", spec=None, decouple=0, units=None):
+def _propagate(qr, agg, depth, ta, rho0, route="ctor", spec=None, decouple=0, units=None, ctor_units=None):
     from quantarhei.qm.liouvillespace.heom import KTHierarchy, KTHierarchyPropagator
     ham = agg.get_Hamiltonian()
     sbi = agg.get_SystemBathInteraction()
@@ -189,7 +193,11 @@ def _propagate(qr, agg, depth, ta, rho0, route="ctor", spec=None, decouple=0, un
         hy = KTHierarchy(ham, sbi2, depth)
     else:
         hy = KTHierarchy(ham, sbi, depth)
-    prop = KTHierarchyPropagator(ta, hy)
+    if ctor_units:
+        with qr.energy_units(ctor_units):
+            prop = KTHierarchyPropagator(ta, hy)
+    else:
+        prop = KTHierarchyPropagator(ta, hy)
     if decouple:
         # use the propagator once with the coupled sites, then remove the coupling from the Hamiltonian object
         prop.propagate(qr.ReducedDensityMatrix(data=rho0.copy()))
@@ -208,6 +216,9 @@ def _dynamics(case, ctx):
     spec = dict(case["spec"])
     kind = case["kind"]
     n = len(spec["E"])
+    if case.get("tau_frac"):
+        spec["bath"] = [dict(b, cortime=b["cortime"] + case["tau_frac"]) for b in spec["bath"]]
+        ctx.label("non-integer-correlation-times")
     if kind == "c":
         spec["bath"] = [dict(b, reorg=0) for b in spec["bath"]]
     rho0 = gens.density_matrix(case["A"])
@@ -236,22 +247,41 @@ def _dynamics(case, ctx):
     pu = case.get("prop_units")
     if pu:
         ctx.label("propagated-in-units:" + pu)
+    cunits = case.get("ctor_units")
+    if cunits:
+        ctx.label("propagator-created-in-units:" + cunits)
     ctx.label("route:" + route, "ground!=0" if spec.get("ground") and any(spec["ground"]) else "ground=0")
-    if route == "aggregate":
+    if True:
         # the aggregate's own interface, asked for several depths in a row (a convergence study on one object): every
-        # hierarchy must have the requested depth and the complete index set of that depth
+        # hierarchy - and the hierarchy inside every propagator handed out - must have the requested depth and the
+        # complete index set of that depth (done on a separate aggregate object unless the route is "aggregate")
+        a_if = agg if route == "aggregate" else gens.make_aggregate(qr, spec)
+
         def sizes():
-            return [(d, int(h.depth), int(h.hsize)) for d, h in ((d, agg.get_KTHierarchy(d)) for d in (1, 3, 2))]
+            out = [("hierarchy", d, int(h.depth), int(h.hsize)) for d, h in ((d, a_if.get_KTHierarchy(d)) for d in (1, 3, 2))]
+            out += [("propagator", d, int(p.hy.depth), int(p.hy.hsize))
+                    for d, p in ((d, a_if.get_KTHierarchyPropagator(depth=d)) for d in (1, 3, 2))]
+            return out
+        def bath_parameters():
+            h = a_if.get_KTHierarchy(2)
+            return numpy.array(h.gamma, dtype=float), numpy.array(h.lam, dtype=float)
+        ok, gl = guarded(ctx, "hierarchy/bath-parameters", bath_parameters)
+        if ok:
+            ctx.close("hierarchy/bath-parameters", gl[0], [1.0 / float(b["cortime"]) for b in spec["bath"]], rtol=1e-12,
+                      where="decay-rates")
+            ctx.close("hierarchy/bath-parameters", gl[1], [b["reorg"] * orc.CM2INT for b in spec["bath"]], rtol=1e-9,
+                      atol=1e-300, where="reorganisation-energies")
         ok, got = guarded(ctx, "index/aggregate-interface", sizes)
         if not ok:
             return
-        for d, hd, hs in got:
+        for what, d, hd, hs in got:
             if hd != d or hs != math.comb(n + d, d):
-                ctx.fail("index/aggregate-interface", "depth", requested=d, depth=hd, size=hs, want=math.comb(n + d, d))
+                ctx.fail("index/aggregate-interface", what, requested=d, depth=hd, size=hs, want=math.comb(n + d, d))
                 return
     if kind in ("b", "c"):
         depth = case["depth"]
-        ok, data = guarded(ctx, "dynamics/propagate", lambda: _propagate(qr, agg, depth, ta, rho0, route, spec=spec, units=pu), kind)
+        ok, data = guarded(ctx, "dynamics/propagate", lambda: _propagate(qr, agg, depth, ta, rho0, route, spec=spec, units=pu,
+                                                                             ctor_units=cunits), kind)
         if not ok:
             return
         if data.shape != (nt, n + 1, n + 1):
@@ -295,8 +325,8 @@ def _dynamics(case, ctx):
                 Jc = [[0] * n for _ in range(n)]
                 Jc[0][1] = Jc[1][0] = decouple
                 a = gens.make_aggregate(qr, dict(spec, J=Jc))
-                return _propagate(qr, a, depth, ta, rho0, "ctor", decouple=decouple, units=pu)
-            return _propagate(qr, agg, depth, ta, rho0, route, spec=spec, units=pu)
+                return _propagate(qr, a, depth, ta, rho0, "ctor", decouple=decouple, units=pu, ctor_units=cunits)
+            return _propagate(qr, agg, depth, ta, rho0, route, spec=spec, units=pu, ctor_units=cunits)
         ok, data = guarded(ctx, "dynamics/propagate", one_depth, "d" + ("/decoupled-after-first-use" if decouple else ""))
         if not ok:
             return
